@@ -1050,35 +1050,51 @@ func c17DirectOracle(rep *Report) {
 				e.St = nil
 			}
 			type dcase struct {
-				src  string
-				op   string
-				fns  []string
-				want func() interface{}
+				src    string
+				op     string
+				fns    []string
+				want   func() interface{}
+				again  []string // a SECOND expr.Operator option for the same operator (option sets composed by the caller)
+				consts []string // functions also declared expr.ConstExpr
 			}
 			cases := []dcase{
-				{"A + St", "+", []string{"AddAny"}, func() interface{} { return e.AddAny(e.A, e.St) }},
-				{"St + A", "+", []string{"AddAny"}, func() interface{} { return e.AddAny(e.St, e.A) }},
-				{"St + St", "+", []string{"AddAny"}, func() interface{} { return e.AddAny(e.St, e.St) }},
-				{"I + St", "+", []string{"AddAny"}, func() interface{} { return e.AddAny(e.I, e.St) }},
-				{"A + B", "+", []string{"AddAny"}, func() interface{} { return e.AddAny(e.A, e.B) }},
-				{"[A + St, St + B]", "+", []string{"AddAny"}, func() interface{} { return []interface{}{e.AddAny(e.A, e.St), e.AddAny(e.St, e.B)} }},
-				{"A - B", "-", []string{"Sub"}, func() interface{} { return e.Sub(e.A, e.B) }},
-				{"B - A", "-", []string{"Sub"}, func() interface{} { return e.Sub(e.B, e.A) }},
-				{"A + I", "+", []string{"Add", "AddInt"}, func() interface{} { return e.AddInt(e.A, e.I) }},
-				{"I + A", "+", []string{"Add", "IntAdd"}, func() interface{} { return e.IntAdd(e.I, e.A) }},
-				{"D + A", "+", []string{"Add", "AddSM"}, func() interface{} { return e.AddSM(e.D, e.A) }},
-				{"A < B", "<", []string{"Less"}, func() interface{} { return e.Less(e.A, e.B) }},
-				{"B < A", "<", []string{"Less"}, func() interface{} { return e.Less(e.B, e.A) }},
-				{"A in Ms", "in", []string{"Has"}, func() interface{} { return e.Has(e.A, e.Ms) }},
+				{src: "A + St", op: "+", fns: []string{"AddAny"}, want: func() interface{} { return e.AddAny(e.A, e.St) }},
+				{src: "St + A", op: "+", fns: []string{"AddAny"}, want: func() interface{} { return e.AddAny(e.St, e.A) }},
+				{src: "St + St", op: "+", fns: []string{"AddAny"}, want: func() interface{} { return e.AddAny(e.St, e.St) }},
+				{src: "I + St", op: "+", fns: []string{"AddAny"}, want: func() interface{} { return e.AddAny(e.I, e.St) }},
+				{src: "A + B", op: "+", fns: []string{"AddAny"}, want: func() interface{} { return e.AddAny(e.A, e.B) }},
+				{src: "[A + St, St + B]", op: "+", fns: []string{"AddAny"}, want: func() interface{} { return []interface{}{e.AddAny(e.A, e.St), e.AddAny(e.St, e.B)} }},
+				{src: "A - B", op: "-", fns: []string{"Sub"}, want: func() interface{} { return e.Sub(e.A, e.B) }},
+				{src: "B - A", op: "-", fns: []string{"Sub"}, want: func() interface{} { return e.Sub(e.B, e.A) }},
+				{src: "A + I", op: "+", fns: []string{"Add", "AddInt"}, want: func() interface{} { return e.AddInt(e.A, e.I) }},
+				{src: "I + A", op: "+", fns: []string{"Add", "IntAdd"}, want: func() interface{} { return e.IntAdd(e.I, e.A) }},
+				{src: "D + A", op: "+", fns: []string{"Add", "AddSM"}, want: func() interface{} { return e.AddSM(e.D, e.A) }},
+				{src: "A < B", op: "<", fns: []string{"Less"}, want: func() interface{} { return e.Less(e.A, e.B) }},
+				{src: "B < A", op: "<", fns: []string{"Less"}, want: func() interface{} { return e.Less(e.B, e.A) }},
+				{src: "A in Ms", op: "in", fns: []string{"Has"}, want: func() interface{} { return e.Has(e.A, e.Ms) }},
+				// the candidate list is the priority order, also when two option sets name a function twice
+				{src: "A + B", op: "+", fns: []string{"Add", "AddAny"}, again: []string{"Add"}, want: func() interface{} { return e.Add(e.A, e.B) }},
+				{src: "A + B", op: "+", fns: []string{"Add", "AddSM", "AddAny"}, again: []string{"Add", "AddAny"}, want: func() interface{} { return e.Add(e.A, e.B) }},
+				{src: "D + A", op: "+", fns: []string{"AddSM", "AddAny"}, again: []string{"AddSM"}, want: func() interface{} { return e.AddSM(e.D, e.A) }},
+				// the mapped function is ALSO a compile-time constant function: every occurrence is applied to ITS operands
+				{src: "[\"a b\" + \"c\", \"a\" + \"b c\"]", op: "+", fns: []string{"StrCat"}, consts: []string{"StrCat"}, want: func() interface{} {
+					return []interface{}{e.StrCat("a b", "c"), e.StrCat("a", "b c")}
+				}},
+				{src: "[1 + 23, 12 + 3, 1 + 2 + 3]", op: "+", fns: []string{"IntPlus"}, consts: []string{"IntPlus"}, want: func() interface{} {
+					return []interface{}{e.IntPlus(1, 23), e.IntPlus(12, 3), e.IntPlus(e.IntPlus(1, 2), 3)}
+				}},
+				{src: "(\"x\" + \"y z\") + (\"x y\" + \"z\")", op: "+", fns: []string{"StrCat"}, consts: []string{"StrCat"}, want: func() interface{} {
+					return e.StrCat(e.StrCat("x", "y z"), e.StrCat("x y", "z"))
+				}},
 				// the occurrence sits inside the arguments of a function of the fast shape func(...interface{}) interface{}
-				{"Pack(A + B)", "+", []string{"Add"}, func() interface{} { return e.Pack(e.Add(e.A, e.B)) }},
-				{"Pack(1, A - B, \"x\")", "-", []string{"Sub"}, func() interface{} { return e.Pack(1, e.Sub(e.A, e.B), "x") }},
-				{"Pack(Pack(A + B), [A + C])", "+", []string{"Add"}, func() interface{} {
+				{src: "Pack(A + B)", op: "+", fns: []string{"Add"}, want: func() interface{} { return e.Pack(e.Add(e.A, e.B)) }},
+				{src: "Pack(1, A - B, \"x\")", op: "-", fns: []string{"Sub"}, want: func() interface{} { return e.Pack(1, e.Sub(e.A, e.B), "x") }},
+				{src: "Pack(Pack(A + B), [A + C])", op: "+", fns: []string{"Add"}, want: func() interface{} {
 					x := e.Add(e.A, e.B)
 					inner := e.Pack(x)
 					return e.Pack(inner, []interface{}{e.Add(e.A, e.C)})
 				}},
-				{"Pack(I < 9, Ok ? A + B : A)", "+", []string{"Add"}, func() interface{} { return e.Pack(e.I < 9, e.Add(e.A, e.B)) }},
+				{src: "Pack(I < 9, Ok ? A + B : A)", op: "+", fns: []string{"Add"}, want: func() interface{} { return e.Pack(e.I < 9, e.Add(e.A, e.B)) }},
 			}
 			for _, c := range cases {
 				rep.Evaluations++
@@ -1096,7 +1112,15 @@ func c17DirectOracle(rep *Report) {
 					want = c.want()
 				}()
 				wantLog := c17LogString(callLog)
-				p, err, panicked := c17CompileSafe(c.src, []expr.Option{expr.Env(c17EnvAs(c17BaseEnv(), kind)), expr.Operator(c.op, c.fns...)})
+				opts := []expr.Option{expr.Env(c17EnvAs(c17BaseEnv(), kind)), expr.Operator(c.op, c.fns...)}
+				if len(c.again) > 0 {
+					opts = append(opts, expr.Operator(c.op, c.again...))
+				}
+				for _, cf := range c.consts {
+					opts = append(opts, expr.ConstExpr(cf))
+				}
+				in["operator_again"], in["constexpr"] = c.again, c.consts
+				p, err, panicked := c17CompileSafe(c.src, opts)
 				if panicked || err != nil {
 					rep.fail(Failure{Key: "C17-compile-differs", What: "an operator whose mapped function fits the operands is not accepted", Input: in, Want: "a program", Got: fmt.Sprint(err)})
 					continue
@@ -1111,7 +1135,7 @@ func c17DirectOracle(rep *Report) {
 				case r.cls != "" || !reflect.DeepEqual(r.out, want):
 					rep.fail(Failure{Key: "C17-result-differs", What: "the operator form differs from the mapped function applied to the operands in order", Input: in,
 						Want: fmt.Sprintf("%#v, calls %s", want, wantLog), Got: c17Show(r)})
-				case c17LogString(r.log) != wantLog:
+				case len(c.consts) == 0 && c17LogString(r.log) != wantLog: // (a compile-time constant function is called at compile time)
 					rep.fail(Failure{Key: "C17-calls-differ", What: "the operator form calls the mapped function with other arguments than the operands in order", Input: in,
 						Want: "calls " + wantLog, Got: "calls " + c17LogString(r.log)})
 				}
